@@ -131,6 +131,8 @@ def build(prog):
     for mod in ("cobra.core.dictlist", "cobra.core", "cobra"):
         stubs[f"{mod}.DictList"] = lambda it_, ev, c, a, k: DL(*a, **k)
     follow = [f"{MODULE}.DictList.{n}" for n in methods]
+    # helpers the methods were factored into (module level or private methods) belong to the implementation
+    follow += [f.qualname for f in prog.all_funcs() if f.qualname.startswith(MODULE + ".") and f.qualname not in follow and f.parent is None]
     it = Interp(prog, (_S,), follow, stubs, globals_={}, max_depth=14)
     it.missing_attr_raises = True
     holder["it"] = it
